@@ -252,7 +252,9 @@ fn cases(tier: Tier) -> Vec<Case> {
     {
         let mut rows = Vec::new();
         let ks = ["CAST(NULL AS INT)", "1", "2"];
-        let ts = ["CAST(NULL AS TEXT)", "'a'", "'long-string-over-12-bytes'"];
+        // strings that agree on the 12-byte sort prefix and differ only beyond it: the order between them is
+        // decided by the full-string comparison, also when the rows meet in a merge of sorted runs
+        let ts = ["CAST(NULL AS TEXT)", "'a'", "'pppppppppppp'", "'ppppppppppppa'", "'ppppppppppppab'", "'ppppppppppppb'"];
         let mut i = 0;
         for a in ks {
             for b in ts {
@@ -278,6 +280,17 @@ fn cases(tier: Tier) -> Vec<Case> {
                         keys: vec![key(1, d[0], nfv), key(2, d[1], nfv), key(3, d[2], nfv)],
                         input_sql: Some(format!("SELECT a, b, c, p FROM {src}")),
                         slice: None,
+                        note: format!("dirs {d:?} nulls {nfv:?} P{p} B{b}"),
+                    });
+                    // the same sort through the limit hint (top-k), total order (p last) so that the slice is exact
+                    out.push(Case {
+                        shape: "multikey-topk".into(),
+                        sets: vec![format!("SET partitions TO {p}"), format!("SET batch_size TO {b}")],
+                        setup: vec![],
+                        sql: format!("SELECT a, b, c, p FROM {src} ORDER BY a{}, b{}, 3{}, p LIMIT 20 OFFSET 3", dir_sql(d[0], nfv), dir_sql(d[1], nfv), dir_sql(d[2], nfv)),
+                        keys: vec![key(1, d[0], nfv), key(2, d[1], nfv), key(3, d[2], nfv), key(4, false, None)],
+                        input_sql: Some(format!("SELECT a, b, c, p FROM {src}")),
+                        slice: Some((3, 20)),
                         note: format!("dirs {d:?} nulls {nfv:?} P{p} B{b}"),
                     });
                 }
